@@ -59,11 +59,26 @@ func DebugFunc(repo, pkg, fnName, prop, tier string, dump bool, work string) int
 	sem := make(chan struct{}, 16)
 	cfg := SolverCfg{WorkDir: work, BatchMs: 4000, SingleMs: 10000, KeepFiles: dump}
 	bad := 0
+	type pass struct {
+		fn   *ssa.Function
+		view string
+	}
+	var passes []pass
 	for _, fn := range fns {
+		passes = append(passes, pass{fn, ""})
+		for _, v := range e.viewsOf(fn) {
+			passes = append(passes, pass{fn, v})
+		}
+	}
+	for _, ps := range passes {
+		fn := ps.fn
 		if fn.Blocks == nil {
 			continue
 		}
 		vc := e.VerifyFunc(fn)
+		if ps.view != "" {
+			vc = e.VerifyFuncView(fn, ps.view)
+		}
 		if vc.unsupp != "" {
 			fmt.Printf("%-60s UNSUPPORTED %s\n", funcDisplayName(fn), vc.unsupp)
 			continue
